@@ -27,6 +27,7 @@
  */
 
 #include "StringDictionaryXBW.h"
+#include <sstream>
 #include "iterators/IteratorDictStringXBW.h"
 #include "iterators/IteratorDictStringXBWDuplicates.h"
 
@@ -128,6 +129,16 @@ StringDictionaryXBW::StringDictionaryXBW(IteratorDictString *it) {
   for (uint i = 0; i < len; i++)
     delete nodes[i];
   delete[] occ;
+
+  // The queries run on the XBW structure: build it from the arrays exactly
+  // as load() does from a saved image
+  std::stringstream arrays;
+  arrays.write((char *)&len, sizeof(uint));
+  arrays.write((char *)mapping, 257 * sizeof(uint));
+  arrays.write((char *)alpha, len * sizeof(uint));
+  arrays.write((char *)last, (len / W + 1) * sizeof(uint));
+  arrays.write((char *)A, (len / W + 2) * sizeof(uint));
+  xbw = new XBW(arrays);
 }
 
 unsigned long StringDictionaryXBW::locate(uchar *str, uint strLen) {
